@@ -193,14 +193,14 @@ Qed.
 
 (* SAME FILE SET (network): after the session  MDir d; trace data; metadata of L; MEnd  the receiver's
    directory d has, for every name, exactly the local directory's file *)
-Lemma same_file_set k d L data s :
+Lemma same_file_set fx k d L data s :
   NoDup (map fst L) -> (forall e, In e L -> sent_name (fst e) = true) -> forallb is_data data = true ->
-  create_directory d (fs s) d = Some fresh_dir ->
-  exists s' R, run (map (pair k) (MDir d :: (data ++ meta_msgs L) ++ [MEnd])) s = Some s' /\ fs s' d = Some R /\
+  mkdir_name fx d (clients s) = Some d -> create_directory d (fs s) d = Some fresh_dir ->
+  exists s' R, run fx (map (pair k) (MDir d :: (data ++ meta_msgs L) ++ [MEnd])) s = Some s' /\ fs s' d = Some R /\
     forall f, flookup f R = match flookup f L with Some c => Some c | None => flookup f (local_dir data) end.
 Proof.
-  intros ND A D C.
-  destruct (same_as_local k d (data ++ meta_msgs L) s) as [s' [R [F _]]]; [|exact C|].
+  intros ND A D MK C.
+  destruct (same_as_local fx k d (data ++ meta_msgs L) s) as [s' [R [F _]]]; [|exact MK|exact C|].
   - rewrite forallb_app, (data_body data D), meta_msgs_body. reflexivity.
   - exists s', (local_dir (data ++ meta_msgs L)). split; [exact R|]. split; [exact F|].
     apply same_file_set_local; assumption.
